@@ -1641,3 +1641,226 @@ def C07(tier, seed):
     assume = ASSUME_A + ['AddressSanitizer/UBSan/LeakSanitizer (gcc 12) are the per-path monitors; a path without report is taken as free of the '
                          'monitored UB classes on that path']
     return finish(prop, tier, seed, 'model_checking', agg, out, bounds, assume, t0, cb['diff'].get('compared', 0))
+
+
+# ----------------------------------------------------------------------------- C09 (inexact floating-point weights, abstract rounding model)
+def _py_simple_cycles(n, edges):
+    adj = [[] for _ in range(n)]
+    for i, (a, b) in enumerate(edges):
+        adj[a].append((b, i))
+        adj[b].append((a, i))
+    out = set()
+
+    def dfs(start, v, mask, onpath):
+        for w, e in adj[v]:
+            if mask >> e & 1:
+                continue
+            if w == start and bin(mask).count('1') >= 2:
+                out.add(mask | (1 << e))
+                continue
+            if w < start or w in onpath:
+                continue
+            onpath.add(w)
+            dfs(start, w, mask | (1 << e), onpath)
+            onpath.discard(w)
+    for s in range(n):
+        dfs(s, s, 0, {s})
+    return sorted(out)
+
+
+def _gf2_rank(rows):
+    rows = list(rows)
+    rank = 0
+    for bit in range(64):
+        piv = next((i for i in range(rank, len(rows)) if rows[i] >> bit & 1), None)
+        if piv is None:
+            continue
+        rows[rank], rows[piv] = rows[piv], rows[rank]
+        for i in range(len(rows)):
+            if i != rank and rows[i] >> bit & 1:
+                rows[i] ^= rows[rank]
+        rank += 1
+    return rank
+
+
+def exact_mcb_weight(n, edges, w):
+    cs = sorted((sum(w[e] for e in range(len(edges)) if m >> e & 1), m) for m in _py_simple_cycles(n, edges))
+    rows, total = [], fractions.Fraction(0)
+    d = dim(n, edges)
+    for wt, m in cs:
+        if len(rows) == d:
+            break
+        if _gf2_rank(rows + [m]) == len(rows) + 1:
+            rows.append(m)
+            total += wt
+    return total
+
+
+def c09_real_violation(o, n, edges, wd):
+    """exact-rational evaluation of C09 on a real double run (o = r_mcb output, wd = list of python floats)"""
+    if o.get('crashed') or o['exception']:
+        return 'crash/exception'
+    w = [fractions.Fraction(x) for x in wd]
+    if o['N'] != o['dim'] or o['foreign_edges'] or not o['all_simple'] or o['rank'] != o['N']:
+        return 'invalid basis (N=%s dim=%s simple=%s rank=%s)' % (o['N'], o['dim'], o['all_simple'], o['rank'])
+    s = sum((w[e] for cyc in o['cycles'] for e in cyc), fractions.Fraction(0))
+    ret = fractions.Fraction(o['ret'])
+    tol = fractions.Fraction(1, 10 ** 9)
+    if abs(ret - s) > tol * s:
+        return 'returned %s but emitted cycles weigh %s' % (o['ret'], float(s))
+    opt = exact_mcb_weight(n, edges, w)
+    if s > (1 + tol) * opt:
+        return 'emitted weight %s exceeds the optimum %s' % (float(s), float(opt))
+    return None
+
+
+def rnd_cases(tier, seed):
+    cases = []
+    r = rng(seed)
+    decs = [0.1, 0.2, 0.3, 0.4, 0.6, 0.7, 0.9]
+    shapes = [(3, [(0, 1), (0, 2), (1, 2)]), (4, [(0, 1), (1, 2), (2, 3), (0, 3)]), (4, [(0, 1), (0, 2), (1, 2), (2, 3)])]
+    for algo in ('signed', 'fvs', 'iso'):
+        for n, g in shapes:
+            cases.append('algo=%s n=%d edges=%s sym=all' % (algo, n, edges_str(g)))
+        named = [(4, [(0, 1), (0, 2), (0, 3), (1, 2), (1, 3)]),                        # K4 minus an edge
+                 (6, norm_edges(family('theta3_3')[1]) if False else [(0, 2), (2, 3), (3, 1), (0, 4), (4, 5), (5, 1)]),  # two parallel 3-paths
+                 (5, norm_edges(family('theta2_3')[1]) if False else [(0, 2), (2, 1), (0, 3), (3, 4), (4, 1)]),          # theta(2,3)
+                 (5, [(0, 1), (0, 2), (0, 3), (1, 3), (1, 4), (2, 4)])]                                                    # the 5-vertex 6-edge shape of DESIGN §4
+        reps = 2 if tier == 'quick' else 8
+        for n, g in named:
+            m = len(g)
+            for k in range(reps):
+                nsym = 2 if tier == 'quick' else 3
+                if algo == 'iso' and m >= 6:
+                    nsym -= 1
+                symidx = sorted(r.sample(range(m), nsym))
+                fx = [r.choice(decs) for _ in range(m)]
+                cases.append('algo=%s n=%d edges=%s sym=%s fixedd=%s' % (algo, n, edges_str(g), ','.join(map(str, symidx)), ','.join(map(str, fx))))
+        # the concrete instance of DESIGN §4 (no symbolic weight: the model degenerates to the machine's own additions)
+        cases.append('algo=%s n=5 edges=0-1,0-2,0-3,1-3,1-4,2-4 sym=none fixedd=0.9,0.4,0.1,0.1,0.6,0.4' % algo)
+        if tier == 'thorough':
+            for g in iso_classes(5, max_m=6, min_m=5):
+                if dim(5, g) < 1:
+                    continue
+                m = len(g)
+                for k in range(3):
+                    symidx = sorted(r.sample(range(m), 2))
+                    fx = [r.choice(decs) for _ in range(m)]
+                    cases.append('algo=%s n=5 edges=%s sym=%s fixedd=%s' % (algo, edges_str(g), ','.join(map(str, symidx)), ','.join(map(str, fx))))
+    return cases
+
+
+def C09(tier, seed):
+    prop = 'C09'
+    t0 = time.time()
+    h, r_mcb = build_many([('harness/h_rnd.cpp', 'symx'), ('replay/r_mcb.cpp', 'real')])
+    cases = rnd_cases(tier, seed)
+    agg = Agg([prop + ':'])
+    out = Outcome(prop)
+    ws, _ = run_harness(h, [c for c in cases if 'sym=all' in c][:4], prop + '-witness', timeout=300, witness=True)
+    if ws.get('witness_hits', 0) <= 0:
+        out.fault = 'witness twin was not violated'
+    leaves = []
+
+    def keep(rec):
+        if 'cycles' in rec and len(leaves) < 40000 and rec['path'] % 3 == 0:
+            leaves.append(rec)
+    s, log = run_harness(h, cases, prop + '-' + tier, timeout=1200 if tier == 'quick' else 3400, max_paths=3000000)
+    agg.add_summary(s)
+    agg.witness_hits = ws.get('witness_hits', 0)
+    agg.add_log(log, keep)
+    if agg.leaves == 0 or not agg.obl:
+        out.fault = 'no leaf reached an obligation of C09'
+
+    def concrete_weights(rec, model):
+        es = rec['edges'].split(',')
+        m = len(es)
+        symset = set(range(m)) if rec['sym'] == 'all' else (set() if rec['sym'] in ('none', '') else set(int(x) for x in rec['sym'].split(',')))
+        fx = [float(x) for x in rec['fixedd'].split(',')] if rec.get('fixedd') else []
+        base = []
+        for i in range(m):
+            base.append(float(parse_q(model['w%d' % i])) if i in symset else (fx[i] if i < len(fx) else 1.0))
+        return base, symset
+
+    def edges_of(rec):
+        return [tuple(map(int, e.split('-'))) for e in rec['edges'].split(',')] if rec['edges'] not in ('-', '') else []
+    nvalid = 0
+    if not out.fault:
+        # translation validation: leaf models rounded to doubles, real double build, exact-rational evaluation of the property.
+        # A real violation on a leaf that discharged every obligation would mean the abstract model is unsound.
+        r = rng(seed)
+        r.shuffle(leaves)
+        lines, meta = [], []
+        for rec in leaves[:(60 if tier == 'quick' else 1500)]:
+            wd, _ = concrete_weights(rec, rec['model'])
+            if min(wd + [1.0]) < 1e-3 or max(wd + [1.0]) > 1e3:
+                continue
+            lines.append('algo=%s n=%s edges=%s weights=%s type=double' % (rec['algo'], rec['n'], rec['edges'], ','.join(repr(x) for x in wd)))
+            meta.append((rec, wd))
+        for (rec, wd), o in zip(meta, run_replayer_batch(r_mcb, lines)):
+            if rec.get('obl'):
+                continue
+            bad = c09_real_violation(o, int(rec['n']), edges_of(rec), wd)
+            if bad and rec['algo'] != 'iso':
+                out.fault = 'real double run violates C09 (%s) on a leaf model that discharged all obligations: %s weights %s' % (bad, rec['case'], wd)
+                break
+            nvalid += 1
+    undecided = 0
+    confirmed_keys = {}
+    if not out.fault:
+        # abstract counterexamples: concretise (nearest doubles of the model, then 1- and 2-decimal roundings of the symbolic weights), replay on the real build
+        by_sig = {}
+        for rec, obl in agg.violated:
+            by_sig.setdefault((rec['algo'], rec['edges'], rec.get('fixedd', '')), []).append((rec, obl))
+        for sig, lst in by_sig.items():
+            hit = None
+            for rec, obl in lst[:6]:
+                base, symset = concrete_weights(rec, obl.get('model') or rec['model'])
+                cands = [base]
+                for nd in (1, 2, 3):
+                    c2 = [round(x, nd) if i in symset else x for i, x in enumerate(base)]
+                    if all(x > 0 for x in c2) and c2 not in cands:
+                        cands.append(c2)
+                for wd in cands:
+                    line = 'algo=%s n=%s edges=%s weights=%s type=double' % (rec['algo'], rec['n'], rec['edges'], ','.join(repr(x) for x in wd))
+                    o = run_replayer(r_mcb, [line])[0]
+                    bad = c09_real_violation(o, int(rec['n']), edges_of(rec), wd)
+                    if bad:
+                        hit = (line, o, bad, rec, obl)
+                        break
+                if hit:
+                    break
+            if not hit:
+                undecided += len(lst)
+                continue
+            line, o, bad, rec, obl = hit
+            entry = {'signed': 'mcb_sva_signed', 'fvs': 'mcb_sva_fvs_trees', 'iso': 'mcb_sva_iso_trees'}[rec['algo']]
+            key = '%s/%s' % (entry, rec['edges'])
+            rp = os.path.join(cex_dir(), 'C09-replay-%d.json' % len(confirmed_keys))
+            json.dump({'property': prop, 'replayer': 'replay/r_mcb.cpp (real double build; property evaluated in exact rational arithmetic)', 'line': line,
+                       'observed': o, 'why': bad, 'key': key}, open(rp, 'w'), indent=1)
+            confirmed_keys[key] = rp
+            kf = finding_matches(prop, key)
+            out.replays.append({'key': key, 'line': line, 'why': bad, 'known': bool(kf)})
+            if kf:
+                out.n_known += 1
+                msg = 'KNOWN-FINDING: property=C09 %s' % kf['text']
+                if msg not in out.known_lines:
+                    out.known_lines.append(msg)
+            else:
+                out.n_confirmed += 1
+                out.violation_lines.append('VIOLATION property=C09 replay=%s' % rp)
+    bounds = {
+        'functions_encoded': ['parmcb::mcb_sva_signed', 'mcb_sva_fvs_trees', 'mcb_sva_iso_trees (instantiated with symx::Rnd)'],
+        'bounds': 'abstract rounding model in linear real arithmetic: x+y = x+y+eps, |eps| <= 2^-53 (x+y), one eps per distinct operand pair; weights in '
+                  '[1e-3,1e3]; triangle, C4, triangle+pendant fully symbolic; K4-e, two parallel 3-paths, theta(2,3) and the 5-vertex 6-edge shape with 2 '
+                  '(thorough 3) symbolic weights and seeded one-decimal concrete weights; thorough: every 5-vertex graph with 5<=m<=6 (2 symbolic, 3 completions)',
+        'undecided': undecided,
+        'undecided_note': 'abstract counterexamples whose concretisation (nearest doubles, 1..3-decimal roundings) did not violate the property on the real '
+                          'double build; they are neither reported nor claimed as proven (the QF_FP re-posing of DESIGN §6 was not built: z3 FP is out of reach here)',
+        'abstract_violations': len(agg.violated),
+        'outside_bounds': 'parallel variants (they share the code under test); graphs beyond those listed; full IEEE semantics (subnormals, overflow) excluded by the weight range',
+    }
+    assume = ASSUME_A[:1] + ['symx::Rnd is a sound over-approximation of round-to-nearest binary64 addition for positive operands in range; what it proves holds for all doubles; '
+                             'what it refutes is only reported after a replay on the real double build with the property evaluated in exact rational arithmetic']
+    return finish(prop, tier, seed, 'model_checking', agg, out, bounds, assume, t0, nvalid)
